@@ -211,6 +211,11 @@ gen_tmpl(Rng& rng, const World& w)
   const bool all_pairs = rng.coin(0.3);
   const int maxbins = all_pairs ? t.ndet - 1 : std::min(t.ndet / 2 + 1, t.ndet - 1);
   t.num_tang = rng.coin(0.6) ? maxbins : static_cast<int>(rng.range(3, maxbins));
+  if (downsample)
+    { // downsample_scanner() makes ceil(num_tang * new_dets / old_dets) + 1 tangential positions; the library supports at most
+      // new_dets - 2 (even count) for the new scanner and rejects more at the first use of the detector tables
+      t.num_tang = std::min(t.num_tang, (t.ds_dets - 3) * t.ndet / t.ds_dets);
+    }
   const float bin_size = static_cast<float>(3.14159265 * t.radius / t.ndet);
   shared_ptr<Scanner> sc;
   if (w.allow_blocks && !downsample && rng.coin(0.25))
